@@ -174,6 +174,10 @@ func (v *Verifier) evalCall(fr *Frame, st *State, x *ast.CallExpr) Val {
 			a := v.evalSpec(fr, st, x.Args[0]).(SliceVal)
 			b := v.evalSpec(fr, st, x.Args[1]).(SliceVal)
 			return Scalar{c.Or(c.Not(c.Eq(a.Ref, b.Ref)), v.iLe(v.iAdd(a.Off, a.Len), b.Off), v.iLe(v.iAdd(b.Off, b.Len), a.Off)), types.Typ[types.Bool]}
+		case "separate": // separate(s, t): the two slices live in different allocations
+			a := v.evalSpec(fr, st, x.Args[0]).(SliceVal)
+			b := v.evalSpec(fr, st, x.Args[1]).(SliceVal)
+			return Scalar{c.Not(c.Eq(a.Ref, b.Ref)), types.Typ[types.Bool]}
 		case "sent", "sentMsgs", "sentByte", "rpos", "inByte", "atomic":
 			if r, ok := v.ghostBuiltin(fr, st, id.Name, x); ok {
 				return r
